@@ -2071,4 +2071,6 @@ def _slotsign_rule(chk, prog):
                               "fiber's stack" % (x.text()[:60], k.t))
             else:
                 chk.ok(rule, "%s: `%s` is an unsigned comparison" % (fn.name, x.text()[:50]))
-    chk.floor(rule, 1, n)
+    if n == 0:
+        chk.note("%s: no comparison of a symbol-map slot index with a slot count in this tree (that missing bound is C10-SYMMAP's business); nothing to decide" % rule)
+    chk.floor(rule, 0, n)
